@@ -480,6 +480,14 @@ M("c03-copy-anode-rule-of-reduced-symbol", ["C03", "C12", "C02"], "break",
 M("r10-follow-inherit-result-dropped", ["C01", "C03", "C10"], "break",
   [("yaep.c", "		    if (k == rhs_len)\n		      changed_p |= term_set_or (rhs_symb->u.nonterm.follow,\n						symb->u.nonterm.follow);", "		    if (k == rhs_len)\n		      term_set_or (rhs_symb->u.nonterm.follow,\n				   symb->u.nonterm.follow);")],
   "create_first_follow_sets/update-reported")
+M("r10-access-scan-left-early", ["C10"], "break",
+  [("yaep.c", "		empty_p &= rhs_symb->empty_p;\n		derivation_p &= rhs_symb->derivation_p;\n	      }", "		empty_p &= rhs_symb->empty_p;\n		derivation_p &= rhs_symb->derivation_p;\n		if (!derivation_p)\n		  break;\n	      }")],
+  "set_empty_access_derives/rhs-scan-total")
+M("r10-loop-scan-skips-by-symbol", ["C10", "C12"], "break",
+  [("yaep.c", "		    for (k = 0; k < rule->rhs_len; k++)\n		      if (j == k)\n			continue;", "		    for (k = 0; k < rule->rhs_len; k++)\n		      if (rule->rhs[k] == symb)\n			continue;")],
+  "set_loop_p/skip-own-position")
+M("r13-tie-relinks-to-original-list", ["C04"], "break",
+  [("yaep.c", "	      alt->val.alt.next = result;\n	      result = alt;", "	      alt->val.alt.next = node;\n	      result = alt;")], "prune_to_minimal/alt.next")
 
 # ---- R8 / R2f (C16, C19) ----------------------------------------------------------------------------
 M("r8-revert-F14", ["C19", "C16"], "break", [("hashtab.cpp", "		  entry_ptr = first_deleted_entry_ptr;\n		  *entry_ptr = EMPTY_ENTRY;", "		  entry_ptr = first_deleted_entry_ptr;\n		  *entry_ptr = DELETED_ENTRY;")], "find_hash_table_entry~")
